@@ -39,12 +39,15 @@ func (ex *Exec) now() *Term {
 
 func registerTime(t map[string]intrinsic) {
 	t["time.Now"] = func(ex *Exec, caller *frame, fn *ssa.Function, args []Value) (Value, *goPanic) {
+		ex.realClockReads++
 		return ex.mkTime(ex.now()), nil
 	}
 	t["time.Since"] = func(ex *Exec, caller *frame, fn *ssa.Function, args []Value) (Value, *goPanic) {
+		ex.realClockReads++
 		return ex.C.Bin(OpSub, ex.now(), timeNs(args[0])), nil
 	}
 	t["time.Until"] = func(ex *Exec, caller *frame, fn *ssa.Function, args []Value) (Value, *goPanic) {
+		ex.realClockReads++
 		return ex.C.Bin(OpSub, timeNs(args[0]), ex.now()), nil
 	}
 	t["time.Unix"] = func(ex *Exec, caller *frame, fn *ssa.Function, args []Value) (Value, *goPanic) {
@@ -418,7 +421,7 @@ func (ex *Exec) reportViolation(id, kind, msg string, m Model) {
 	for i, v := range ex.vars {
 		names[i] = v.Name
 	}
-	ex.violations = append(ex.violations, Violation{Harness: ex.H.Entry, ID: id, Kind: kind, Msg: msg, Model: m, Trail: ex.trailInts(), Vars: names})
+	ex.violations = append(ex.violations, Violation{Harness: ex.H.Entry, ID: id, Kind: kind, Msg: msg, Model: m, Trail: ex.trailInts(), Vars: names, RealClock: ex.realClockReads > 0})
 }
 
 // ---- hashes, sort, misc ----
